@@ -1,3 +1,4 @@
+import codecs
 import io
 import logging
 import re
@@ -308,6 +309,16 @@ class PDFConverter(PDFLayoutAnalyzer, Generic[IOType]):
         self.outfp: IOType = outfp
         self.codec = codec
         self.outfp_binary = self._is_binary_stream(self.outfp)
+        # The output is written in many fragments. A codec with state (utf-16
+        # starts with a byte-order mark) must see them as one stream, so one
+        # incremental encoder is kept per converter.
+        self._encoder: Optional[codecs.IncrementalEncoder] = None
+
+    def _encode(self, text: str, errors: str = "strict") -> bytes:
+        if self._encoder is None:
+            self._encoder = codecs.getincrementalencoder(self.codec)()
+        self._encoder.errors = errors
+        return self._encoder.encode(text)
 
     @staticmethod
     def _is_binary_stream(outfp: AnyIO) -> bool:
@@ -343,7 +354,7 @@ class TextConverter(PDFConverter[AnyIO]):
     def write_text(self, text: str) -> None:
         text = utils.compatible_encode_method(text, self.codec, "ignore")
         if self.outfp_binary:
-            cast(BinaryIO, self.outfp).write(text.encode(self.codec, "ignore"))
+            cast(BinaryIO, self.outfp).write(self._encode(text, "ignore"))
         else:
             cast(TextIO, self.outfp).write(text)
 
@@ -453,7 +464,7 @@ class HTMLConverter(PDFConverter[AnyIO]):
 
     def write(self, text: str) -> None:
         if self.codec:
-            cast(BinaryIO, self.outfp).write(text.encode(self.codec))
+            cast(BinaryIO, self.outfp).write(self._encode(text))
         else:
             cast(TextIO, self.outfp).write(text)
 
@@ -730,7 +741,7 @@ class XMLConverter(PDFConverter[AnyIO]):
 
     def write(self, text: str) -> None:
         if self.codec:
-            cast(BinaryIO, self.outfp).write(text.encode(self.codec))
+            cast(BinaryIO, self.outfp).write(self._encode(text))
         else:
             cast(TextIO, self.outfp).write(text)
 
@@ -911,7 +922,7 @@ class HOCRConverter(PDFConverter[AnyIO]):
 
     def write(self, text: str) -> None:
         if self.codec:
-            encoded_text = text.encode(self.codec)
+            encoded_text = self._encode(text)
             cast(BinaryIO, self.outfp).write(encoded_text)
         else:
             cast(TextIO, self.outfp).write(text)
